@@ -611,6 +611,19 @@ pub fn run(ctx: &mut Ctx) {
         } else {
             e0
         };
+        // every 7th case: one allocation at several positions and DEPTHS (clones of one Envelope value share it)
+        let e0 = if case % 7 == 4 {
+            ctx.count("aliased_inputs");
+            let shared = if e0.is_node() || e0.is_wrapped() { e0.clone() } else { e0.add_assertion("k", 1) };
+            let deep = Envelope::new("holder").add_assertion("deep", shared.clone()).wrap_envelope();
+            if rng.chance(1, 2) {
+                Envelope::new("aliased").add_assertion("three", deep).add_assertion("one", shared.clone()).add_assertion("two", shared)
+            } else {
+                shared.clone().add_assertion("again", shared.clone()).add_assertion("wrapped", deep)
+            }
+        } else {
+            e0
+        };
         let key = fresh_key(&mut rng);
         let e = if rng.chance(1, 2) { gen::obscure_random(&e0, &mut rng, 2, &key) } else { e0 };
         let t = tree_of(&e);
